@@ -27,7 +27,7 @@ def main():
     run = vlib.Run(pid, tier, seed)
 
     audit = vlib.static_audit()
-    make_ok, make_log = vlib.coq_make(clean=False)
+    make_ok, make_log = vlib.coq_make(clean=False, target=f'Props/{pid}.vo')
     props = vlib.check_props(pid) if make_ok else {'ok': False, 'theorems': [], 'log': make_log, 'cmd': ''}
 
     mod = importlib.import_module(f'props.{pid.lower()}')
@@ -48,6 +48,12 @@ def main():
     except Exception:
         # a crash of the harness itself is a broken correspondence, never a pass
         run.disagreement('harness-crash', {'traceback': traceback.format_exc()[-3000:]}, None, None)
+    if tier == 'thorough' and make_ok:
+        ok, txt = vlib.coqchk(pid)
+        run.notes.append({'coqchk': 'ok' if ok else 'FAILED', 'output': txt[-1500:]})
+        if not ok:
+            props['ok'] = False
+            props['log'] = 'coqchk failed: ' + txt[-1500:]
     code = run.finish(audit, make_ok, make_log, props)
     sys.exit(code)
 
